@@ -1099,9 +1099,15 @@ class Interp:
         d = {}
         for k, v in zip(e.keys, e.values):
             if k is None:
-                raise Unsupported("dict unpacking in display")
+                sub = self.eval(cx, fr, v)
+                if isinstance(sub, KwDict):
+                    sub = sub.d
+                if not isinstance(sub, dict):
+                    raise Unsupported("dict unpacking of a symbolic dict")
+                d.update(sub)
+                continue
             kk = self.eval(cx, fr, k)
-            if is_sym(kk):
+            if is_sym(kk) and not getattr(kk, "concrete_key", False):
                 raise Unsupported("dict display with symbolic key")
             d[kk] = self.eval(cx, fr, v)
         return d
@@ -1480,7 +1486,7 @@ class Interp:
                 continue
             if kind == "dict":
                 kk = self.eval(cx, sub, e.key)
-                if is_sym(kk):
+                if is_sym(kk) and not getattr(kk, "concrete_key", False):
                     raise Unsupported("dict comprehension with symbolic key")
                 out_d[kk] = self.eval(cx, sub, e.value)
             else:
